@@ -28,6 +28,14 @@ ASSUMPTIONS = c03.ASSUMPTIONS + [
 @st.composite
 def cases(draw, tier):
     spec = draw(c03.cases(tier, big=False))
+    if draw(st.integers(0, 24)) == 0:
+        # hundreds / thousands of rows (a recipe), incl. exactly 256 / 1024 / 65536 rows, no dimension at all, a single
+        # category, and no missing value anywhere
+        spec = draw(Q.large_specs(c03.AGGS))
+        spec["via"] = "method"
+        spec["xdtypes"] = ["int64"] * len(spec["dims"])
+        spec["xexplicit"] = draw(st.booleans())
+        spec["args"] = draw(st.sampled_from(["fresh", "shared"]))
     spec.pop("rma", None)
     spec.pop("ignore", None)
     spec["sentinel"] = draw(st.sampled_from([0, -1, 99.5]))
@@ -114,6 +122,9 @@ def edited_pass(case, dense, full, ns, Narg):
 def check(case, rec):
     import numpy
 
+    if case.get("recipe"):
+        rec.note("large recipe case (N=%d, valid %s)" % (case["N"], case.get("valid")))
+    case = Q.expand(case)
     dense = Q.dense_dims(case)
     N = case["N"]
     nd = len(dense)
